@@ -173,13 +173,16 @@ async fn run_case(env: &mut Env, line: &str) -> Result<String, String> {
     rep.wait_for_shutdown().await;
     drop(rep);
     let mut ans = Vec::new();
+    let deadline = tokio::time::Instant::now() + Duration::from_secs(20);
     for (rid, p) in pend.into_iter().enumerate() {
         let o = match p {
             None => "pending".to_string(),
-            Some(h) => match tokio::time::timeout(Duration::from_secs(60), h).await {
+            // the actor is gone, so every reply sender has been used or dropped by now; one that is
+            // still open was leaked: that write is never answered
+            Some(h) => match tokio::time::timeout_at(deadline, h).await {
                 Ok(Ok(r)) => outcome(r),
                 Ok(Err(_)) => "pending".to_string(),
-                Err(_) => return Err(format!("reply {rid} never resolved")),
+                Err(_) => "unanswered".to_string(),
             },
         };
         ans.push(format!("{rid}:{o}"));
